@@ -24,7 +24,10 @@ CONTRACTS[F + "add_outier_bins"] = dict(
     requires=["len(my_interval_index) >= 1", _PART.format(x="my_interval_index"), "absolute_range[0] <= absolute_range[1]"],
     returns=_IDX,
     ensures=[
-        "len(result) >= len(my_interval_index) and len(result) <= len(my_interval_index) + 2",
+        # exactly one extra bin per side on which the absolute range is strictly wider (no degenerate empty bin when it is equal)
+        "len(result) == len(my_interval_index) + (1 if my_interval_index[0].left > absolute_range[0] else 0) + "
+        "(1 if my_interval_index[len(my_interval_index) - 1].right < absolute_range[1] else 0)",
+        "forall(0, len(result), lambda k: result[k].left <= result[k].right)",
         "forall(0, len(result) - 1, lambda k: result[k].right == result[k + 1].left)",
         "result[0].left == min(my_interval_index[0].left, absolute_range[0])",
         "result[len(result) - 1].right == max(my_interval_index[len(my_interval_index) - 1].right, absolute_range[1])",
